@@ -330,6 +330,7 @@ def in_fragment(case, flags):
 
 # ------------------------------------------------------------------ implementation side
 
+TOML_DECODE_RE = re.compile(r"\(at (line \d+, column \d+|end of document)\)\s*$")
 ARG_RE = re.compile(r"^argument ([^:]+): (.*)$", re.S)
 
 
@@ -426,6 +427,17 @@ def run_impl(case, dirs, flag2dest):
                     raise
                 out = classify_exc(e, flag2dest)
                 if out.get("err") == "exit":
+                    fm = re.search(r"^fatal: error parsing project toml: (.*)$", err.getvalue(), re.S | re.M)
+                    if fm and out.get("code") == 1:
+                        # fix f47ae20: `_toml_error` prints the exception and exits 1
+                        msg = fm.group(1).strip()
+                        if TOML_DECODE_RE.search(msg):
+                            return {"outcome": "tomlFatal", "err": "decode"}
+                        out2 = classify_exc(argparse.ArgumentError(None, msg), flag2dest)
+                        out2["outcome"] = "tomlFatal"
+                        if "dest" in out2 or out2.get("err") in ("required", "unrecognized"):
+                            out2["src"] = "argparse"
+                        return out2
                     # exit_on_error=True: argparse printed "rattr: error: <message>" and exited
                     m = re.search(r"error: (.*)$", err.getvalue(), re.S)
                     if m:
@@ -493,6 +505,9 @@ def py_spec(facts, case, conf):
 
 
 # ------------------------------------------------------------------ the property oracle
+
+TOML_DIAG = ("tomlError", "tomlFatal")   # re-raised (exit_on_error=False) / "fatal: …" + exit 1 (True)
+
 
 def same_source_mutex(case, conf, facts):
     """strict together with a non-zero threshold in ONE source: documented as mutually exclusive."""
@@ -568,7 +583,7 @@ def _judge(case, im, spec, facts, conf, source_broken, alt_spec):
     if source_broken == "syntax":
         if im["outcome"] == "ok":
             return "toml-syntax-error-ignored"
-        return None if im["outcome"] == "tomlError" else "toml-syntax-error:" + im["outcome"]
+        return None if im["outcome"] in TOML_DIAG else "toml-syntax-error:" + im["outcome"]
     if bad:
         if im["outcome"] == "ok":
             sigs = []
@@ -581,7 +596,7 @@ def _judge(case, im, spec, facts, conf, source_broken, alt_spec):
                 else:
                     sigs.append(f"invalid-toml-coerced:{type(v).__name__}-for-{f['doc_type']}-option")
             return sorted(sigs)[0]
-        if im["outcome"] != "tomlError":
+        if im["outcome"] not in TOML_DIAG:
             return "invalid-toml:" + im["outcome"] + ":" + str(im.get("err"))
         return None
     # every given value is acceptable
@@ -590,7 +605,7 @@ def _judge(case, im, spec, facts, conf, source_broken, alt_spec):
     if im["outcome"] != "ok":
         dash = [x for v in conf.values() for x in (v if isinstance(v, list) else [v])
                 if isinstance(x, str) and x.startswith("-")]
-        if dash and im["outcome"] == "tomlError" and im.get("err") == "expectedOneArgument":
+        if dash and im["outcome"] in TOML_DIAG and im.get("err") == "expectedOneArgument":
             return "valid-toml-string-starting-with-dash-rejected"
         return f"valid-configuration-rejected:{im['outcome']}:{im.get('err')}"
     for f in facts:
@@ -633,6 +648,7 @@ def cli_observe(case, dirs):
         ob["via_toml_error"] = "_toml_error" in err
         return ob
     ob["usage_error"] = bool(re.search(r"^rattr: error: ", err, re.M))
+    ob["toml_fatal_line"] = bool(re.search(r"^fatal: error parsing project toml: \S", err, re.M))
     ob["follow0"] = "follow imports not set" in err
     out = p.stdout.strip()
     if not out:
@@ -885,8 +901,6 @@ def run(tier, seed, build):
                     continue
                 mm = mo["model"]
                 ii = {k: v for k, v in im.items() if k not in ("exc", "msg", "in_toml_error", "code")}
-                if mm.get("outcome") == "tomlFatalBeforeConfig":
-                    mm = {"outcome": "tomlFatalBeforeConfig"}
                 if mm != ii:
                     res.disagreements.append({"case": shown, "impl": im, "model": mo["model"]})
             # alternative reading for the signature: the decoy file was used
@@ -934,15 +948,19 @@ def run(tier, seed, build):
                 else:
                     sig = f"cli-traceback:{ob.get('exc')}"
                 # the in-process worker must have seen a TOML error on the same case
-                if im["outcome"] != "tomlError":
+                if im["outcome"] not in TOML_DIAG:
                     res.internal_errors.append({"what": "CLI traceback where the in-process worker saw no TOML error",
                                                 "case": shown, "cli": ob, "worker": im})
                 res.violations.append({"signature": sig, "case": shown, "cli": ob})
                 continue
-            if im["outcome"] == "tomlError":
-                # a diagnostic was due and the CLI gave no traceback: it must have failed cleanly
+            if im["outcome"] in TOML_DIAG:
+                # a diagnostic was due and the CLI gave no traceback: it must have failed cleanly,
+                # with the `fatal: error parsing project toml: …` line and a non-zero exit status
                 if ob["exit"] == 0:
                     res.violations.append({"signature": "invalid-toml-accepted-by-cli", "case": shown, "cli": ob})
+                elif not ob.get("toml_fatal_line"):
+                    res.violations.append({"signature": f"invalid-toml-cli-exit-{ob['exit']}-without-fatal-line",
+                                           "case": shown, "cli": ob})
                 else:
                     res.count("cli:diagnostic")
                 continue
